@@ -94,16 +94,7 @@ func runC04(c *Ctx) {
 				if !strings.Contains(sk.Src, "templ.SafeURL = ") {
 					continue
 				}
-				direct := false
-				for _, nd := range gf.Tree {
-					if e, ok := nd.(Emit); ok {
-						for _, pp := range e.Parts {
-							if pp.Kind == PConst && strings.Contains(pp.Const, "templ.SafeURL = ") {
-								direct = true
-							}
-						}
-					}
-				}
+				direct := emitsConst(gf.Tree, "templ.SafeURL = ")
 				if !direct {
 					continue
 				}
@@ -148,6 +139,10 @@ func runC04(c *Ctx) {
 						calls = true
 					}
 				}
+				// … or takes it as a method value, to call it through a variable
+				if se, ok := y.(*ast.SelectorExpr); ok && g.info.Uses[se.Sel] == urlWriter.Obj {
+					calls = true
+				}
 				return true
 			})
 			if !calls || gf == urlWriter {
@@ -168,7 +163,40 @@ func runC04(c *Ctx) {
 					}
 				}
 			}
-			if elemObj == nil || attrText == "" {
+			var attrObj types.Object
+			if attrText == "" {
+				// a selector function (element name, attribute name) → value writer: which string is which is read off
+				// its call site, where the attribute name is <ExpressionAttribute>.Name
+				var prms []types.Object
+				for _, prm := range gf.Decl.Type.Params.List {
+					for _, nm := range prm.Names {
+						prms = append(prms, g.info.Defs[nm])
+					}
+				}
+				for _, fd2 := range allFuncDecls(gp) {
+					ast.Inspect(fd2, func(y ast.Node) bool {
+						call, ok := y.(*ast.CallExpr)
+						if !ok || types.Object(calleeOf(g.info, call)) != gf.Obj || len(call.Args) != len(prms) {
+							return true
+						}
+						for i, a := range call.Args {
+							if se, ok := ast.Unparen(a).(*ast.SelectorExpr); ok && se.Sel.Name == "Name" {
+								if t := g.info.TypeOf(se.X); t != nil && strings.HasSuffix(t.String(), "parser/v2.ExpressionAttribute") {
+									attrObj = prms[i]
+								}
+							}
+						}
+						return true
+					})
+				}
+				elemObj = nil
+				for _, pr := range prms {
+					if pr != attrObj && pr != nil && pr.Type().String() == "string" {
+						elemObj = pr
+					}
+				}
+			}
+			if elemObj == nil || attrText == "" && attrObj == nil {
 				c.undec("C04.R2", gf.Key+"|url-attributes-routed", c.pos(gf.Decl.Pos()), gf.Name+" calls the URL attribute writer but does not take (element name string, parser.ExpressionAttribute)")
 				continue
 			}
@@ -179,13 +207,22 @@ func runC04(c *Ctx) {
 				continue
 			}
 			// the sibling value writers: package-local callees that receive the attribute
-			valueWriter := func(st ast.Stmt) (urlW, other bool) {
+			valueWriter := func(st ast.Stmt, env map[types.Object]ast.Expr) (urlW, other bool) {
 				ast.Inspect(st, func(y ast.Node) bool {
 					call, ok := y.(*ast.CallExpr)
 					if !ok {
 						return true
 					}
 					fn := calleeOf(g.info, call)
+					if fn == nil {
+						// a call through a local that holds, on this path, a function or method value
+						switch fv := den.deref(call.Fun, env).(type) {
+						case *ast.SelectorExpr:
+							fn, _ = g.info.Uses[fv.Sel].(*types.Func)
+						case *ast.Ident:
+							fn, _ = g.info.Uses[fv].(*types.Func)
+						}
+					}
 					if fn == nil || fn.Pkg() != gp.Types {
 						return true
 					}
@@ -210,7 +247,11 @@ func runC04(c *Ctx) {
 			route := func(elem, attr string) (string, bool) {
 				ce := newCenv(g.info, gp.Types, allFuncDecls(gp))
 				ce.byObj[elemObj] = constant.MakeString(elem)
-				ce.byText[attrText] = constant.MakeString(attr)
+				if attrObj != nil {
+					ce.byObj[attrObj] = constant.MakeString(attr)
+				} else {
+					ce.byText[attrText] = constant.MakeString(attr)
+				}
 				toURL, toOther, n := 0, 0, 0
 				for _, pth := range den.paths {
 					if !ce.feasible(pth) {
@@ -218,8 +259,29 @@ func runC04(c *Ctx) {
 					}
 					u, o := false, false
 					for _, st := range pth.Trace {
-						a, b := valueWriter(st)
+						a, b := valueWriter(st, pth.Env)
 						u, o = u || a, o || b
+					}
+					// a selector function: the writer it returns on this path
+					if pth.Ret != nil && len(pth.Ret.Results) == 1 {
+						var fn *types.Func
+						switch fv := den.deref(pth.Ret.Results[0], pth.Env).(type) {
+						case *ast.SelectorExpr:
+							fn, _ = g.info.Uses[fv.Sel].(*types.Func)
+						case *ast.Ident:
+							fn, _ = g.info.Uses[fv].(*types.Func)
+						}
+						if fn != nil && fn.Pkg() == gp.Types {
+							if types.Object(fn) == urlWriter.Obj {
+								u = true
+							} else if sig, ok := fn.Type().(*types.Signature); ok {
+								for i := 0; i < sig.Params().Len(); i++ {
+									if strings.HasSuffix(sig.Params().At(i).Type().String(), "parser/v2.ExpressionAttribute") {
+										o = true
+									}
+								}
+							}
+						}
 					}
 					if !u && !o {
 						continue // left before the value was written (an earlier write failed)
